@@ -190,6 +190,69 @@ mod verif_c20 {
         kani::cover!(ch == 'M');
     }
 
+    /// Sink for the Debug output: counts lines, checks that every pixel row is 64 characters wide and
+    /// records the character at one observed (line, column).
+    struct Sink {
+        line: u32,
+        col: u32,
+        want_line: u32,
+        want_col: u32,
+        got: Option<char>,
+        last_row_line: u32,
+        rows_ok: bool,
+    }
+    impl fmt::Write for Sink {
+        fn write_str(&mut self, s: &str) -> fmt::Result {
+            for c in s.chars() {
+                self.write_char(c)?;
+            }
+            Ok(())
+        }
+        fn write_char(&mut self, c: char) -> fmt::Result {
+            if c == '\n' {
+                if self.line >= 1 && self.line <= self.last_row_line && self.col != 64 {
+                    self.rows_ok = false;
+                }
+                self.line += 1;
+                self.col = 0;
+            } else {
+                if self.line == self.want_line && self.col == self.want_col {
+                    self.got = Some(c);
+                }
+                self.col += 1;
+            }
+            Ok(())
+        }
+    }
+
+    /// Debug output (the pattern format from_pattern reads): header line, then one 64 character line for
+    /// every row from 0 to the last row that holds a pixel, the character of each cell at its column
+    /// (' ' for an untouched cell), then the count of skipped empty rows and the closing bracket.
+    //@harness prop=C20 kind=bounded tier=thorough class=P bound="display with one touched cell (symbolic position and colour); all 64 x 64 cells printed" timeout=3000 kani="--no-assertion-reach-checks" fns=src/mock_display/mod.rs::MockDisplay::fmt
+    #[kani::proof]
+    #[kani::unwind(66)]
+    fn c20_debug_output_rows() {
+        use core::fmt::Write;
+        let mut d = MockDisplay::<BinaryColor>::new();
+        let p: Point = kani::any();
+        kani::assume(inside(p));
+        let color: BinaryColor = kani::any();
+        d.set_pixel(p, Some(color));
+        let (wl, wc): (u32, u32) = (kani::any(), kani::any());
+        kani::assume(wl >= 1 && wl <= p.y as u32 + 1 && wc < 64);
+        let mut sink = Sink { line: 0, col: 0, want_line: wl, want_col: wc, got: None, last_row_line: p.y as u32 + 1, rows_ok: true };
+        let r = write!(sink, "{:?}", d);
+        assert!(r.is_ok());
+        assert!(sink.rows_ok);
+        // header + rows 0..=p.y + (skipped rows line unless the last row is used) + closing bracket
+        let expected_lines = 1 + (p.y as u32 + 1) + if p.y < 63 { 1 } else { 0 } + 1;
+        assert!(sink.line == expected_lines);
+        let expected = if wl == p.y as u32 + 1 && wc == p.x as u32 { BinaryColor::color_to_char(color) } else { ' ' };
+        assert!(sink.got == Some(expected));
+        kani::cover!(p.y == 63);
+        kani::cover!(p.y == 5 && wl == 6 && wc == p.x as u32);
+    }
+
     //@harness prop=C20 kind=canary tier=quick class=I expect=fail
     #[kani::proof]
     fn c20_canary() {
